@@ -137,6 +137,7 @@ class UBXMessage:
 
         except (
             AttributeError,
+            IndexError,
             struct.error,
             TypeError,
             ValueError,
